@@ -229,7 +229,7 @@ theorem series_isSome (ι : Int → K) (G : Game K) (k : Kind K) (N : Int) (n : 
 
 /-- **What `time_series` returns** (the function the driver executes, error branch included):
     under the hypotheses of `states_valid` it returns `T` rows, every row and the final state
-    (left in the caller's array) being a valid action distribution. -/
+    (the working copy after the last period) being a valid action distribution. -/
 theorem series_rows_valid (ι : Int → K) (G : Game K) (k : Kind K) (N : Int) (n : Nat) (hA : G.A.length = n)
     (inps : List (Inp K)) (s : List Int × List Nat)
     (hin : ∀ inp ∈ inps, 0 ≤ inp.p ∧ inp.p < N) (hv : Valid N n s.1) (hri : ∀ r ∈ s.2, r < n) :
